@@ -183,6 +183,52 @@ SynonymsOf(c, th, t, ex) ==
           i \in { i \in 1..Len(c.docs) : (i - 1) \notin ex } }
 
 ----------------------------------------------------------------------------
+(* Vectors: every sub-vector of every vector field instance, with its document *)
+SubVecs(v) == [k \in 1..(Len(v.vec) \div v.dims) |-> SubSeq(v.vec, (k - 1) * v.dims + 1, k * v.dims)]
+
+FieldVecs(c, f) ==
+  Flatten([i \in 1..Len(c.docs) |->
+    Flatten([j \in 1..Len(c.docs[i].vecs) |->
+      IF c.docs[i].vecs[j].f # f THEN <<>>
+      ELSE LET sv == SubVecs(c.docs[i].vecs[j]) IN
+           [k \in 1..Len(sv) |-> [d |-> i - 1, v |-> sv[k], metric |-> c.docs[i].vecs[j].metric]]])])
+
+VecFieldsOf(c) == UNION { { c.docs[i].vecs[j].f : j \in 1..Len(c.docs[i].vecs) } : i \in 1..Len(c.docs) }
+
+\* squared Euclidean distance (metric 0) or dot product (inner product and cosine on pre-normalised input)
+Score(metric, q, v) ==
+  IF metric = 0 THEN SumSeq([i \in 1..Len(q) |-> (q[i] - v[i]) * (q[i] - v[i])])
+  ELSE SumSeq([i \in 1..Len(q) |-> q[i] * v[i]])
+Better(metric, a, b) == IF metric = 0 THEN a < b ELSE a > b
+
+\* below this many vectors the index is exact (flat); above, clustered (approximate)
+ExactBelow == 1000
+
+\* TopK as a predicate on the returned set r of [d, s] pairs (ties in any order, equal pairs collapse)
+TopKOK(c, f, q, k, ex, filter, elig, r) ==
+  LET all == FieldVecs(c, f) IN
+  IF all = <<>> \/ Len(q) # Len(all[1].v) THEN r = {}
+  ELSE
+    LET metric == all[1].metric
+        liveS  == SelectSeq(all, LAMBDA x : x.d \notin ex /\ (filter => x.d \in elig))
+        scored == [i \in 1..Len(liveS) |-> [d |-> liveS[i].d, s |-> Score(metric, q, liveS[i].v)]]
+        cand   == RangeOf(scored)
+        kk     == IF k < Len(scored) THEN k ELSE Len(scored)
+    IN  /\ r \subseteq cand
+        /\ Cardinality(r) <= k
+        /\ (Len(all) < ExactBelow =>
+             IF kk = 0 THEN r = {}
+             ELSE LET ss    == SortSeq([i \in 1..Len(scored) |-> scored[i].s], LAMBDA a, b : Better(metric, a, b))
+                      worst == ss[kk]
+                      nb    == Cardinality({ i \in 1..Len(scored) : Better(metric, scored[i].s, worst) })
+                      sb    == { x \in cand : Better(metric, x.s, worst) }
+                      ties  == { x \in cand : x.s = worst }
+                  IN  /\ sb \subseteq r /\ r \subseteq sb \cup ties
+                      /\ Cardinality(r \cap ties) >= 1 /\ Cardinality(r \cap ties) <= kk - nb)
+
+NumVectors(c, f) == Len(FieldVecs(c, f))
+
+----------------------------------------------------------------------------
 (* Merge law (declarative): survivors in segment order then document order *)
 
 SurvivorIdx(c, D) == SelectSeq([i \in 1..Len(c.docs) |-> i], LAMBDA i : (i - 1) \notin D)
